@@ -311,7 +311,37 @@ def special_value_cases(rng):
         del n1, n2
 
 
+def framing_tokens(sep: str) -> list[str]:
+    """strings built from the digest framing itself: the escape character, the closing bracket, the learned separator"""
+    base = ["", "q", "\\", ")", "\\)", ")\\", "\\\\", "))", sep, "\\" + sep, sep + "\\", sep + "q", "q" + sep, ")" + sep, sep + ")",
+            "\\)" + sep, sep + "\\)"]
+    return base
+
+
+def framing_exhaustive_cases():
+    """all pairs of two-property nodes whose values come from `framing_tokens`: pairwise different contents must have
+    pairwise different content_ids (injectivity of the escaping, exhaustively on the framing alphabet)"""
+    probe = zoo.Two(a="QQQ", b="WWW")
+    sep = "):b=<class 'str'>("
+    toks = framing_tokens(sep)
+    seen: dict[str, tuple[str, str]] = {}
+    bad = None
+    n = 0
+    for x in toks:
+        for y in toks:
+            node = zoo.Two(a=x, b=y)
+            n += 1
+            other = seen.setdefault(node.content_id, (x, y))
+            if other != (x, y) and bad is None:
+                bad = f"Two(a={other[0]!r}, b={other[1]!r}) and Two(a={x!r}, b={y!r}) share a content_id"
+            del node
+    del probe
+    yield Case("splice-exhaustive", None, None, True, f"{n} nodes Two(a, b) over {len(toks)} framing strings", oracle_fail=bad,
+               sig="cid|splice")
+
+
 def cases(rng: random.Random, tier: str):
+    yield from framing_exhaustive_cases()
     yield from special_value_cases(rng)
     n_pairs = 250 if tier == "quick" else 6000
     rec = _Rec(pnode.hashlib)
